@@ -282,9 +282,36 @@ def iter_slots(prog: Prog) -> Iterator[dict[str, Any]]:
                     yield from walk(file, n["else_body"], path + [(i, "else_body")], ea, n["k"] + "_else", False)
 
     recompute_assembled(prog)
+    live = live_includes(prog)
     yield from walk("main.s", prog.root, [], True, "top", True)
     for rel in sorted(prog.inc_roots):
-        yield from walk(rel, prog.inc_roots[rel], [], True, "included_file", True)
+        # statements of an included file are assembled only while an assembled '.include' still names it
+        # (a minimiser step may have removed that statement)
+        yield from walk(rel, prog.inc_roots[rel], [], rel in live, "included_file", True)
+
+
+def live_includes(prog: Prog) -> set[str]:
+    """Included files reachable from main.s through '.include' statements in assembled positions."""
+
+    def includes_in(nodes: list[Node], asm: bool) -> Iterator[str]:
+        for n in nodes:
+            if n["k"] == "include" and asm:
+                for rel in prog.inc_roots:
+                    if f"'{rel}'" in n["t"] or f"/{rel}'" in n["t"]:
+                        yield rel
+            if "body" in n:
+                yield from includes_in(n["body"], asm and bool(n.get("assembled", True)))
+                if n.get("else_body") is not None:
+                    yield from includes_in(n["else_body"], asm and bool(n.get("else_assembled", False)))
+
+    live: set[str] = set()
+    todo = list(includes_in(prog.root, True))
+    while todo:
+        rel = todo.pop()
+        if rel not in live:
+            live.add(rel)
+            todo += list(includes_in(prog.inc_roots[rel], True))
+    return live
 
 
 def _copy_nodes(nodes: list[Node]) -> list[Node]:
@@ -548,6 +575,11 @@ class Gen:
         if "lexvar" in self.feats and rng.random() < 0.15:
             k = rng.randrange(0, len(text) + 1)
             text = text[:k] + "\\'" + text[k:]  # an escaped quote inside the string
+        if rng.random() < 0.12:
+            # characters outside ASCII in an emitted string: precomposed, decomposed (letter + combining mark),
+            # compatibility forms - the text must reach the assembler exactly as stored
+            k = rng.randrange(0, len(text) + 1)
+            text = text[:k] + rng.choice(["e\u0301", "\u00e9", "\u65e5", "a\u030a", "\ufb01", "\u212b", "o\u0308u\u0308", "\u1e9b\u0323"]) + text[k:]
         return stmt(f".ascii '{text}'")
 
     def comment(self) -> Node:
@@ -646,6 +678,12 @@ class Gen:
             # a top-level name that an inner scope (a block, a macro parameter) defines again: inside, the
             # inner value counts; afterwards the top-level one must still be what a reference sees
             name = f"SH{self.uid()}"
+            if rng.random() < 0.3:
+                # a label and a later '=' of the same name in the same scope (only a warning): the label keeps
+                # its address in the symbol file - the same address as the twin label defined at the same spot
+                self.note_label(name)
+                self.note_label(name + "_tw")
+                return [stmt(f"{name}:", "label"), stmt(f"{name}_tw:", "label"), self.simple_instr(), stmt(f"{name} = {self.lit(rng.choice([8, 16, 24]))}")]
             how = rng.choice(["eq", "assign", "label"])
             head = {"eq": stmt(f"{name} = {self.lit(8)}"), "assign": stmt(f"{name} := {self.lit(8)}"), "label": stmt(f"{name}:", "label")}[how]
             if how == "label":
@@ -761,6 +799,10 @@ class Gen:
             self.cur_for += 1
             body = self.body(depth + 1, True, (params or []) + [var], want=rng.randrange(1, 4))
             self.cur_for -= 1
+            if rng.random() < 0.2:
+                # iterations that generate nothing at all (a comment, an untaken .if): whatever is kept per
+                # iteration - scopes, symbols - must stay balanced for what follows the loop
+                body = [rng.choice([stmt("; nothing to do", "comment"), block(".if 0 {", [stmt("nop")], "if", assembled=False)])]
             return [block(f".for {var} := {lo}, {hi} {{", body, "for", assembled=iters >= 1)]
         if kind == "apply":
             name, nparams = rng.choice(self.macros)
